@@ -83,24 +83,28 @@ def param_object(r):
 _CPO = []
 
 
-def chain_param_object(r):
+def chain_param_object(r, lookup=None):
     """a ParameterObject that is also a ChainObject: every chain (real or test helper) must call init_chain on it before tasks run"""
     if not _CPO:
         from taskchain.parameter import ParameterObject
         from taskchain.chain import ChainObject
 
         class CPO(ParameterObject, ChainObject):
-            def __init__(self, r):
+            def __init__(self, r, lookup=None):
                 self.r = r
+                self.lookup = lookup
                 self.tcv_state = 'fresh'
 
             def repr(self):
                 return self.r
 
             def init_chain(self, chain):
+                # the documented use: look at the chain (here: find a task by name) — the chain must be complete by now
+                if self.lookup is not None:
+                    chain[self.lookup]
                 self.tcv_state = 'attached'
         _CPO.append(CPO)
-    return _CPO[0](r)
+    return _CPO[0](r, lookup)
 
 
 def mform(v):
@@ -356,7 +360,10 @@ def one_family(ctx, i, root, reqs, metas):
             ctx.count('mock-overrides-task')
         if given and rng.random() < 0.2:
             mk = rng.choice([param_object, chain_param_object])
-            given[rng.choice(sorted(given))] = mk('PO(' + gen.gen_str(rng, gen.SAFE, 4) + ')')
+            if mk is chain_param_object and rng.random() < 0.6:
+                given[rng.choice(sorted(given))] = mk('PO(' + gen.gen_str(rng, gen.SAFE, 4) + ')', lookup=slug[target])
+            else:
+                given[rng.choice(sorted(given))] = mk('PO(' + gen.gen_str(rng, gen.SAFE, 4) + ')')
             ctx.count('parameter-object' if mk is param_object else 'parameter-object:chain-object')
         mock_by = {k: rng.choice(['class', 'name']) for k in mocks}
         scenario = rng.choice(['fresh', 'fresh', 'explicit', 'create', 'missing-mock', 'missing-param', 'reuse', 'reuse'])
